@@ -80,3 +80,6 @@ OBLIGATIONS = FT.fault_obligations('c05', 'C05', which=['up-path', 'up-seek', 'u
          encodes=['s3transfer.MultipartUploader.upload_file', '_upload_parts', '_upload_one_part'],
          assumptions=['S1', 'S2', 'serial executor_cls']),
 ]
+
+from harness.corace import OB_DEPS, task_dependencies  # noqa: E402
+OBLIGATIONS += [dict(OB_DEPS, id='C05.2')]
